@@ -110,15 +110,8 @@ pub fn assemble(src: &str) -> Result<Assembled, String> {
         Err(p) => Err(format!("PANIC: {}", p)),
         Ok(Err(e)) => Err(e),
         Ok(Ok(())) => {
-            let PreprocessorContext {
-                macro_nesting_counter: _,
-                data_counter,
-                label_map,
-                macro_map: _,
-                mapper,
-                fn_map,
-                undefined_labels,
-            } = ctx;
+            // `..`: fields a working tree may have added are of no concern here (the harness builds either way)
+            let PreprocessorContext { data_counter, label_map, mapper, fn_map, undefined_labels, .. } = ctx;
             let mut undefined: Vec<(usize, String)> = undefined_labels.iter().map(|(a, b)| (*a, b.clone())).collect();
             undefined.sort();
             Ok(Assembled {
@@ -128,6 +121,8 @@ pub fn assemble(src: &str) -> Result<Assembled, String> {
                     fn_map,
                     label_map,
                     call_stack: Vec::new(),
+                    // fields a working tree may have added keep their defaults (the harness builds either way)
+                    ..Default::default()
                 },
                 undefined,
                 source_map: mapper.get_source_map(),
